@@ -66,6 +66,7 @@ type Unit struct {
 	File        string
 	Line        int
 	Pure        bool
+	FnKey       string // when set: the function this unit is checked on (variant units: "(*T).M@Iface" refinement checks)
 }
 
 type SpecFunc struct {
@@ -115,6 +116,25 @@ type Contracts struct {
 	GhostFields map[string]map[string]*GhostField
 	Files       []string
 	Scan        []string // lines mentioning assume/axiom/trusted (for the evidence 'assumptions' list)
+	Refines     []*RefineSpec
+}
+
+// RefineSpec: `refines <iface pkg path>::<Iface> by <RecvType> state <ghost>[,<ghost>] props Cxx[,Cyy] [except M1,M2]`
+// followed by `abstr NAME := EXPR(self)` lines. The trusted contracts written for the interface's methods in terms of the
+// abstraction functions NAME(<state>, recv) are re-stated over the implementation (NAME(state, recv) becomes EXPR with
+// self := the receiver, NAME(old(state), recv) becomes old(EXPR)) and proved on the body of every implementing method.
+type RefineSpec struct {
+	Pkg         string // implementing package
+	IfacePkg    string
+	Iface       string
+	Recv        string // "*Transaction"
+	State       []string
+	Props       []string
+	Except      map[string]bool
+	Abstr       map[string]Expr
+	AbstrParams map[string][]string
+	File        string
+	Line        int
 }
 
 func NewContracts() *Contracts {
@@ -123,7 +143,7 @@ func NewContracts() *Contracts {
 
 var clauseKeywords = map[string]bool{"excludes": true, "lemma": true, "returns": true, "after": true, "preserves": true, "step": true, "exits": true, "at": true, "memoize": true, "pins": true, "visits": true, "requires": true, "ensures": true, "modifies": true, "invariant": true,
 	"decreases": true, "loop": true, "func": true, "spec": true, "define": true, "axiom": true, "ghost": true,
-	"opts": true, "pure": true, "end": true, "trusted": true}
+	"opts": true, "pure": true, "end": true, "trusted": true, "refines": true, "abstr": true}
 
 // ParseFile reads one contract file. pkgPath is the Go import path of the package it sits in ("" for /verif/specs).
 func (c *Contracts) ParseFile(path, pkgPath string) error {
@@ -255,6 +275,54 @@ func (c *Contracts) ParseFile(path, pkgPath string) error {
 			cur = u
 			curLoop = nil
 			extending = false
+		case "refines":
+			// refines PKG::Iface by *T state g1,g2 props C18,C02 [except M1,M2]
+			fields := strings.Fields(r.text)
+			rs := &RefineSpec{Pkg: pkgPath, Except: map[string]bool{}, Abstr: map[string]Expr{}, AbstrParams: map[string][]string{}, File: path, Line: r.line}
+			if len(fields) < 3 || fields[1] != "by" || !strings.Contains(fields[0], "::") {
+				return fmt.Errorf("%s:%d: refines PKG::Iface by RecvType [state g,...] [props C..] [except M,...]", path, r.line)
+			}
+			i := strings.LastIndex(fields[0], "::")
+			rs.IfacePkg, rs.Iface, rs.Recv = fields[0][:i], fields[0][i+2:], fields[2]
+			for j := 3; j+1 < len(fields); j += 2 {
+				switch fields[j] {
+				case "state":
+					rs.State = strings.Split(fields[j+1], ",")
+				case "props":
+					rs.Props = strings.Split(fields[j+1], ",")
+				case "except":
+					for _, m := range strings.Split(fields[j+1], ",") {
+						rs.Except[m] = true
+					}
+				default:
+					return fmt.Errorf("%s:%d: refines: unknown option %s", path, r.line, fields[j])
+				}
+			}
+			c.Refines = append(c.Refines, rs)
+			cur = nil
+			curLoop = nil
+		case "abstr":
+			if len(c.Refines) == 0 {
+				return fmt.Errorf("%s:%d: abstr outside refines", path, r.line)
+			}
+			i := strings.Index(r.text, ":=")
+			if i < 0 {
+				return fmt.Errorf("%s:%d: abstr NAME := EXPR", path, r.line)
+			}
+			e, err := ParseExpr(strings.TrimSpace(r.text[i+2:]))
+			if err != nil {
+				return fmt.Errorf("%s:%d: %v", path, r.line, err)
+			}
+			nm := strings.TrimSpace(r.text[:i])
+			rsp := c.Refines[len(c.Refines)-1]
+			if j := strings.Index(nm, "("); j > 0 && strings.HasSuffix(nm, ")") {
+				// abstr NAME(p1, p2) := EXPR: the abstraction function takes (state, recv, p1, p2)
+				for _, p := range strings.Split(nm[j+1:len(nm)-1], ",") {
+					rsp.AbstrParams[nm[:j]] = append(rsp.AbstrParams[nm[:j]], strings.TrimSpace(p))
+				}
+				nm = nm[:j]
+			}
+			rsp.Abstr[nm] = e
 		case "end":
 			cur = nil
 			curLoop = nil
